@@ -193,7 +193,7 @@ theorem pass_uniform_f (h : PState ok j0 jo F0 e) (fs : List String) (k : String
       (tasksForRefs (spF e fs k rest) jo
         jo.job.status.tasks) = (s1, some (rjA, T1)) := by
     unfold spF; rw [h.tasks_eq_f]; exact hcreate
-  obtain ⟨s', hsync, hto, _⟩ := sync_simple (spF e fs k rest) jo s1 rjA T1 hc.spec hcreate' hA (by rw [hcfg1]; rfl) (by rw [hclk1]; rfl)
+  obtain ⟨s', hsync, hto, _⟩ := sync_simple (hT1fn := TasksFn.of_nodup hT1nd (fun t ht => (hT1 t ht).1.ok)) (spF e fs k rest) jo s1 rjA T1 hc.spec hcreate' hA (by rw [hcfg1]; rfl) (by rw [hclk1]; rfl)
     (by
       intro pt hpt hpos t ht
       rw [hclk1]
